@@ -189,6 +189,13 @@ class C12(Prop):
                         for it in sec["items"][:4]:
                             if g.random() < 0.5:
                                 it[0] = it[0].lower() if g.random() < 0.5 else it[0].capitalize()
+            if g.random() < 0.12:
+                # terse ~Well: few items, short or empty descriptions (the widest field of the section is then a value)
+                for sec in doc["sections"]:
+                    if sec["kind"] == "W":
+                        sec["items"] = sec["items"][:g.choice([4, 4, 5])]
+                        for it in sec["items"]:
+                            it[3] = g.choice(["", "", "S", "d"])
             src = {"kind": "lines", "lines": docmodel.render_doc(doc), "mutate": g.randrange(1 << 30) if g.random() < 0.4 else None}
         fmt = g.choice(FMTS)
         a, b = draw_cfg(g), draw_cfg(g)
